@@ -67,6 +67,36 @@ DLambda(spec, cfg, set, theta, n, i) ==
       [b \in 1..Len(ch.samples[1].data) |->
           LLSum([j \in 1..Len(ch.samples) |-> DSample(set, ch.samples[j], theta, b, n, i)])]]
 
+(* Symbolic lane (non-integer normsys alpha, inside and outside the code-4 core): the derivative of a sample's rate is a  *)
+(* sum of terms  coef * prod atoms  where an atom [lo, hi, alpha, d] stands for the normsys factor (d = FALSE) or its     *)
+(* derivative with respect to alpha (d = TRUE); coef is exact.  The leaf evaluator supplies atoms: code 1 and code 4     *)
+(* outside the core  base^|alpha|  and  +-ln(base) base^|alpha|;  code 4 inside the core the A_inverse polynomial and    *)
+(* its termwise derivative.  Code 4 is differentiable everywhere; code 1 has its kink at alpha = 0 (excluded).           *)
+DSampleSym(set, sm, theta, b, n, i) ==
+  LET K == DOMAIN sm.mods
+      nsK  == {k \in K : sm.mods[k].type = NORMSYS}
+      facK == {k \in K : ~IsAdditive(sm.mods[k].type) /\ sm.mods[k].type # NORMSYS}
+      addK == {k \in K : IsAdditive(sm.mods[k].type)}
+      val(k) == DefFactorOrDelta(set, sm, sm.mods[k], theta, b)
+      ProdOver(S) == RProdSeq([q \in 1..Cardinality(S) |-> val(SortSet(S)[q])])
+      Fall == ProdOver(facK)
+      Aval == RAdd(sm.data[b], RSumSeq([q \in 1..Cardinality(addK) |-> val(SortSet(addK)[q])]))
+      atoms(dk) == [q \in 1..Cardinality(nsK) |-> LET k == SortSet(nsK)[q] IN
+                      [lo |-> sm.mods[k].d1[1], hi |-> sm.mods[k].d2[1], alpha |-> theta[sm.mods[k].name][1], d |-> (k = dk)]]
+      term(k) == LET md == sm.mods[k] IN
+                 IF ~Acts(md, n, i, b) THEN <<>>
+                 ELSE IF md.type = NORMSYS THEN << [coef |-> RMul(Fall, Aval), atoms |-> atoms(k)] >>
+                 ELSE IF IsAdditive(md.type)
+                      THEN << [coef |-> RMul(Fall, DDelta(set.hcode, md.d1[b], sm.data[b], md.d2[b], theta[n][1])), atoms |-> atoms(0)] >>
+                      ELSE << [coef |-> RMul(ProdOver(facK \ {k}), Aval), atoms |-> atoms(0)] >>
+  IN Flatten([k \in 1..Len(sm.mods) |-> term(k)])
+
+DLambdaSym(spec, cfg, set, theta, n, i) ==
+  [ci \in 1..Len(cfg.channels) |->
+      LET ch == Chan(spec, cfg.channels[ci]) IN
+      [b \in 1..Len(ch.samples[1].data) |->
+          Flatten([j \in 1..Len(ch.samples) |-> DSampleSym(set, ch.samples[j], theta, b, n, i)])]]
+
 Differentiable(cfg, set, theta) ==
   \A q \in 1..Len(cfg.modifiers) :
      LET n == cfg.modifiers[q][1]  t == cfg.modifiers[q][2] IN
